@@ -6,6 +6,35 @@ pub(crate) fn wait_id_res_addr(f: &super::WaitId) -> usize {
     crate::io_uring::op::verif_opsup::resources_addr(&f.state)
 }
 
+/// C13: a `Signals` around an arbitrary descriptor (private fields), never dropped by the caller.
+pub(crate) fn signals_around(fd: AsyncFd) -> ManuallyDrop<super::Signals> {
+    ManuallyDrop::new(super::Signals { fd, signals: super::SignalSet(unsafe { std::mem::zeroed() }) })
+}
+
+pub(crate) fn receive_signal_res_addr(f: &super::ReceiveSignal<'_>) -> usize {
+    crate::io_uring::op::verif_opsup::resources_addr(&f.state)
+}
+
+/// C13: a SignalInfo from the first five 32-bit words of its kernel bytes
+/// (struct signalfd_siginfo, 128 bytes; written by byte offset, the rest zero).
+pub(crate) fn signal_info_from_words(w: [u32; 5]) -> super::SignalInfo {
+    const _S: () = assert!(std::mem::size_of::<libc::signalfd_siginfo>() == 128);
+    let mut raw: libc::signalfd_siginfo = unsafe { std::mem::zeroed() };
+    let p = std::ptr::addr_of_mut!(raw).cast::<u32>();
+    unsafe {
+        p.add(0).write(w[0]);
+        p.add(1).write(w[1]);
+        p.add(2).write(w[2]);
+        p.add(3).write(w[3]);
+        p.add(4).write(w[4]);
+    }
+    super::SignalInfo(raw)
+}
+
+pub(crate) fn signal_number(s: super::Signal) -> i32 {
+    s.0
+}
+
 // ===========================================================================
 // C06: the hand-written drop paths of the owned signal stream.
 // ===========================================================================
